@@ -26,7 +26,7 @@ RULE = (
     "snapshot-restored twin; distinct_nontrivial = distinct (machine, engine, state, history event) cases"
 )
 BOUNDS = {
-    "quick": "TREE(N<=5) trees with a history node under a non-root parent x {no default, default=last sibling (plain key; for trees with a history owner outside the initial configuration also leading-dot and #absolute spellings)} x {sync, async}",
+    "quick": "irregular larger trees holding a history node + TREE(N<=5) trees with a history node under a non-root parent x {no default, default=last sibling (plain key; for trees with a history owner outside the initial configuration also leading-dot and #absolute spellings)} x {sync, async}",
     "thorough": "TREE(N<=6) trees with a history node under a non-root parent x {no default, default=last sibling} x {sync, async}; "
                 "plus structured skeletons C(X(H,s1,s2),A) with X in {C,P}, H in {Hs,Hd}, s1,s2 from a subtree menu (quick: reduced menu) and C(P(owner,sibling),A) with the history owner a region next to a deeper region",
 }
@@ -40,6 +40,9 @@ ENGINES = ("sync", "async")
 def units(tier: str) -> List[Any]:
     n = 5 if tier == "quick" else 6
     out = []
+    for t in F.big_skeletons(tier):
+        if any(k in ("Hs", "Hd") for k in F.tree_kinds(t)):
+            out.append((t, False))
     for t in F.trees_upto(n):
         # only a history node under a NON-root parent can be targeted while its parent is inactive
         nodes = F.flatten(t)
